@@ -26,7 +26,7 @@ RULE = ("daily and billing models (parameter-built for every split layout and sh
         "contained at least one row without temperature or without usage.")
 ASSUMPTIONS = ["'has a value' means finite (NaN and +-inf are missing)", "column sums skip missing values, as the documentation's df.sum() does"]
 REQUIRED_REACH = {"post.predict_frame": 60, "clause.rowwise_mask": 40, "clause.sum_identity": 60, "rows.temperature_missing_with_usage": 100,
-                  "rows.usage_missing": 50, "agg.monthly": 6, "agg.bimonthly": 6, "history.after_temperature_only": 12, "frame.usage_supplied_but_no_complete_day": 2}
+                  "rows.usage_missing": 50, "agg.monthly": 6, "agg.bimonthly": 6, "history.after_temperature_only": 12, "frame.usage_supplied_but_no_complete_day": 2, "frame.gas_month_with_zero_usage": 1, "clause.rowwise_mask_aggregated": 12}
 
 VIOL = []
 CUR = {}
@@ -77,6 +77,22 @@ def judge_frame(p, fam, agg=None, daily=None):
             add("column-sums-differ-from-rowwise-savings:" + fam, "sum(predicted)-sum(observed) = %.6f but sum(predicted-observed) = %.6f" % (s1, s2), daily=True)
     else:
         I.reach("agg." + agg)
+        # both or neither, period by period (a period none of whose days was evaluated may carry NaN or an empty total 0 in both columns)
+        I.reach("clause.rowwise_mask_aggregated")
+        has_o, has_q = fo & (o != 0), fq & (q != 0)
+        dd, di = daily, daily.index
+        for j in np.flatnonzero(has_o != has_q):
+            # which daily rows fed this period?  a real zero total (gas: a month without usage) is a value, not a missing one
+            lo_ = p.index[j]
+            hi_ = p.index[j + 1] if j + 1 < len(p) else None
+            rows = dd[(di >= lo_) & ((di < hi_) if hi_ is not None else True)]
+            both_d = np.isfinite(rows["observed"].to_numpy(dtype=float)) & np.isfinite(rows["predicted"].to_numpy(dtype=float))
+            if not both_d.any():
+                continue
+            if fo[j] and fq[j]:
+                continue            # both present, one of them a genuine total of 0
+            add("aggregated-period-has-one-column-only:" + fam, "%s period starting %s: observed=%r predicted=%r although %d of its days have both" % (agg, lo_, o[j], q[j], int(both_d.sum())), agg=agg)
+            break
         d = daily
         do, dq = d["observed"].to_numpy(dtype=float), d["predicted"].to_numpy(dtype=float)
         both = np.isfinite(do) & np.isfinite(dq)
@@ -130,6 +146,9 @@ def defect_frame(rng, tz, start, n, pattern, with_observed=True):
         if "o_disjoint" in pattern:
             # usage only on days without temperature, temperature only on days without usage: no complete day at all
             o[~bad] = np.nan
+        if "o_zero_month" in pattern:
+            mth = int(df.index.month[int(rng.integers(0, n))])
+            o[df.index.month.values == mth] = 0.0            # gas: a month without any usage is a month with usage 0
         if "o_zero" in pattern:
             o[rng.choice(n, size=3, replace=False)] = 0.0
         df["observed"] = o
@@ -137,7 +156,7 @@ def defect_frame(rng, tz, start, n, pattern, with_observed=True):
 
 
 PATTERNS = [["t_isolated"], ["t_run"], ["t_first"], ["t_last"], ["t_month"], ["t_isolated", "t_inf"], ["o_isolated"], ["o_run"],
-            ["t_isolated", "o_isolated"], ["t_run", "o_run", "t_inf"], ["t_first", "t_last", "o_zero"], ["t_month", "o_run"], [], ["t_all"], ["t_run", "o_disjoint"], ["t_isolated", "t_month", "o_disjoint"]]
+            ["t_isolated", "o_isolated"], ["t_run", "o_run", "t_inf"], ["t_first", "t_last", "o_zero"], ["t_month", "o_run"], [], ["t_all"], ["t_run", "o_disjoint"], ["t_isolated", "t_month", "o_disjoint"], ["o_zero_month"], ["t_isolated", "o_zero_month"]]
 
 
 # what the same model object was used for before the judged predict (state must not carry over)
@@ -148,9 +167,10 @@ def gen_cases(tier, seed):
     q = tier == "quick"
     splits = B.all_split_strings()
     cases = []
-    n = 48 if q else 600
+    n = 3 * len(PATTERNS) if q else 600
     for i in range(n):
-        cases.append(dict(kind="param", family="daily" if i % 3 else "billing", split=splits[i % len(splits)], pattern=PATTERNS[i % len(PATTERNS)],
+        # (family, pattern) enumerated as a product: every pattern meets the billing family (index arithmetic with a common period is not a product)
+        cases.append(dict(kind="param", family="daily" if (i + i // len(PATTERNS)) % 3 else "billing", split=splits[i % len(splits)], pattern=PATTERNS[i % len(PATTERNS)],
                           tz=["America/Chicago", "UTC", "Australia/Sydney", "Europe/London", "Asia/Kolkata"][i % 5], n=i, with_observed=bool(i % 9 != 8),
                           prior=PRIORS[(i // 3) % len(PRIORS)]))
     nf = 4 if q else 40
@@ -206,10 +226,17 @@ def run_case(spec):
         start = str((pd.Timestamp("2019-01-01") + pd.Timedelta(days=int(rng.integers(0, 400)))).date())
         n = int(rng.choice([31, 90, 200, 366]))
         df = defect_frame(rng, tz, start, n, spec["pattern"], with_observed=spec["with_observed"])
+        gas = "o_zero_month" in spec["pattern"]                       # non-electric meter: zero usage is usage
+        if gas and spec["with_observed"]:
+            I.reach("frame.gas_month_with_zero_usage")
         CUR["no_complete_day"] = bool(spec["with_observed"] and not (np.isfinite(df["temperature"].to_numpy(dtype=float)) & np.isfinite(df["observed"].to_numpy(dtype=float))).any())
         if fam == "billing":
-            data = em.BillingReportingData(df, is_electricity_data=True)
-            p = m.predict(data, ignore_disqualification=True)
+            data = em.BillingReportingData(df, is_electricity_data=not gas)
+            try:
+                p = m.predict(data, ignore_disqualification=True)
+            except Exception as e:
+                add("predict-raised-instead-of-returning-a-masked-frame:billing:%s" % type(e).__name__, "predict raised %s: %s" % (type(e).__name__, str(e)[:120]))
+                return dict(viol=[dict(v) for v in VIOL], reach=I.take_reach(), keys=sorted(keys), hist={"pattern": "+".join(spec["pattern"]) or "none", "family": fam}, events=1)
             judge_frame(p, fam)
             for agg in ("monthly", "bimonthly"):
                 try:
@@ -222,14 +249,20 @@ def run_case(spec):
                 keys.add("%s|%s|%s|%s" % (fam, spec.get("split"), "+".join(spec["pattern"]), agg))
         else:
             try:
-                data = em.DailyReportingData(df, is_electricity_data=True)
+                data = em.DailyReportingData(df, is_electricity_data=not gas)
             except ValueError:
                 # so few usage days that the data class takes the set for billing data and refuses it: no frame to judge (the data class's business)
                 I.reach("frame.set_rejected_by_the_data_class")
                 data = None
             if data is not None:
-                p = m.predict(data, ignore_disqualification=True)
-                judge_frame(p, "daily")
+                try:
+                    p = m.predict(data, ignore_disqualification=True)
+                except Exception as e:
+                    # no frame at all: neither column can be summed (whether predict may refuse is C06's business; here it is recorded as a frame that never came back)
+                    add("predict-raised-instead-of-returning-a-masked-frame:daily:%s" % type(e).__name__, "predict raised %s: %s" % (type(e).__name__, str(e)[:120]))
+                    p = None
+                if p is not None:
+                    judge_frame(p, "daily")
         if spec["pattern"]:
             keys.add("%s|%s|%s|none|%s" % (fam, spec.get("split"), "+".join(spec["pattern"]), spec["with_observed"]))
     for w in rec:
